@@ -350,8 +350,9 @@ def check_run(tree, res):
     code, text = run_program(["--list"])
     res.evaluations += 1
     ids = [l[1] for l in holder["leaves"]]
-    if text.split() != ids:
-        problems.append(("run-list", "--list printed %r, iterate_tests ids are %r" % (text.split(), ids)))
+    if text != "".join(i + "\n" for i in ids):
+        # exactly one line per id (a consumer reads a blank line as the id "")
+        problems.append(("run-list", "--list printed %r, iterate_tests ids are %r" % (text, ids)))
     scratch = tempfile.mkdtemp(prefix="vt-c19-")
     try:
         for S, ending in [(S, "\n") for S in SUBSETS] + [(S, "\r\n") for S in SUBSETS[1:6]] + [(S, " \t\n") for S in SUBSETS[1:4]]:
